@@ -11,13 +11,15 @@ META = {
            '(b) real numbers: only the decimal string kernels (stage iii of realToString) over a symbolic reversed digit run of NDIG <= 5 (quick) / 8 '
            '(thorough; the model admits at most precision+2..3 digits in most modes) digits, precision <= 4, all three formats, under the call-site model written at the top of C10_fmt.cpp '
            '(validated natively on 5.0M Fixed and 3.0M Default call sites of random normal doubles: 0 deviations); V < 1 restricted to '
-           'calculated_digits <= 3 (V > ~0.001), Default format with at most 3 dropped integer digits; zero / inf / nan for double and float, all formats.',
+           'calculated_digits <= 3 (V > ~0.001), Default format with at most 3 dropped integer digits; zero / inf / nan for double and float, all formats. '
+           '(c) long zero padding, Fixed format: the same kernels and oracle with the precision PINNED per query to 19, 20, 21, 22, 40, 41 (quick) / every value 17..45 (thorough) '
+           'over runs of 1-2 symbolic digits (integer-valued V, one fraction digit, V < 1), so that insertZerosLarge writes its 20-unit zero block 0, 1 and 2 times.',
  'outside': '32/64-bit integers outside the window and edge set: no back end decided the Horner oracle for more than ~7 symbolic digits (measured: 32-bit '
             'full range, minisat/kissat/cadical 300 s, cvc5 bv-as-int 300 s, z3 120 s; 64-bit kissat/cadical 900 s; an induction-step formulation '
             'text(100w+r) == text(w)++pair(r) 120 s on every back end). Stages (i)/(ii) of realToString (binary -> scaled big integer -> digit run: BigInt '
             'multiply/divide, bigIntToString) are not encoded: realToString<Half> was not attempted under CBMC after the integer kernel alone proved out '
             'of reach beyond 7 digits; two defects of stage (i) (sticky flag set on exact values / lost when the fraction is dropped, Default format) were '
-            'found by the native model validation, not by the solver. Subnormal doubles, precision > 4, runs longer than NDIG.',
+            'found by the native model validation, not by the solver. Subnormal doubles, precision > 4 other than the pinned long-padding precisions of (c) (and there only runs of 1-2 digits), precision > 45, runs longer than NDIG.',
  'assumptions': ['FixedStream stand-in for the stream template parameter (operator+= overload set narrowed to the real StringStream one)',
                  'call-site model of realToString -> formatStringNumber* (C10_fmt.cpp header comment), derived by reading Digit.hpp:752-855 and validated natively',
                  'bytes beyond the stream length are arbitrary but fixed (symbolic stale content)'],
@@ -80,6 +82,17 @@ def fmt_queries(tier):
                     ex = list(FMT_KF)
                     qs.append(Query('fmt/%s/%s/mode%d/n%d' % ('fixed' if fixed else 'semifixed', ch, mode, n), 'C10_fmt.cpp', 'h_fixed',
                                     kf({'NDIG': n, 'MODE': mode, 'FIXED': fixed, 'CHAR': ch}, ex), bounds=b, cflags=PRIV, kf_excl=ex, timeout=600, mem_gb=8))
+    # long zero padding (Fixed format, precision >= 20: insertZerosLarge writes the 20-unit zero block more than once): precision pinned
+    # per query (a constant, so the padding lengths fold), run of 1-2 digits, integer-valued V / one fraction digit / V < 1
+    for prec in ((19, 20, 21, 22, 40, 41) if tier == 'quick' else tuple(range(17, 46))):
+        for mode, n in ((0, 1), (0, 2), (1, 2), (2, 1)):
+            m = n + prec + 8
+            b = {'draw': n + 1, 'fill': 73, 'ref_round|ref_text': m, 'h_fixed': prec + 4, 'formatStringNumberFixed|roundStringNumber': m, 'Write': 22, 'Reverse': m,
+                 'InsertAt': m, 'insertZerosLarge': 4}
+            ex = list(FMT_KF)
+            qs.append(Query('fmt/pad/p%d/mode%d/n%d' % (prec, mode, n), 'C10_fmt.cpp', 'h_fixed',
+                            kf({'NDIG': n, 'MODE': mode, 'FIXED': 1, 'CHAR': 'char', 'PMIN': prec, 'PMAX': prec, 'CAPX': 72}, ex), bounds=b, cflags=PRIV, kf_excl=ex,
+                            timeout=300, mem_gb=8))
     DEF_KF = ('C10-default-prec0', 'C10-trim-integer-zeros', 'C10-default-sticky-lost')
     for mode in (0, 1, 2):
         for n in range(1, NMAX + 1):
